@@ -13,9 +13,9 @@ from harness.core import Rng, gz, glist, gbool, Dec, num_close
 VO = ["theories/Base/Num.vo", "theories/Base/Flat.vo", "theories/Post/Tradeoff.vo", "theories/Post/Hull.vo",
       "theories/Post/Interp.vo", "theories/Post/ThreshOpt.vo",
       "theories/Post/Tradeoff_proofs.vo", "theories/Post/Hull_proofs.vo", "theories/Post/Interp_proofs.vo",
-      "theories/Post/ThreshOpt_proofs.vo"]
+      "theories/Post/ThreshOpt_proofs.vo", "theories/Post/ThreshOptSrc.vo", "theories/Post/ThreshOptSrc_proofs.vo"]
 REQUIRES = ["From FL Require Import Num Flat Tradeoff Hull Interp ThreshOpt."]
-TRANSLATORS = ["t_metricdict", "t_hull"]
+TRANSLATORS = ["t_metricdict", "t_hull", "t_threshopt"]
 
 SIMPLE = {"selection_rate_parity": "SelRate", "demographic_parity": "SelRate",
           "false_positive_rate_parity": "FPR", "false_negative_rate_parity": "FNR",
@@ -132,6 +132,96 @@ def cases(pid, tier, seed):
         else:
             gsz = r.choice(GRIDS + [6, 8, 9, 16, 20, 50, r.randint(1, 50)])
         out.append(_mk(rows, (c, o, r.chance(1, 2), gsz), r.choice(SCALES), r.choice(OFFSETS)))
+    return out + structured(tier, seed)
+
+
+# --------------------------------------------------------------------------------------------
+# structured streams (on top of the exhaustive small tables and the random tables):
+#   anti   : flip=False (mostly equalized odds) with one group whose scores are ANTI-correlated with its labels
+#            (strictly separated the wrong way round, or overlapping) -- its ROC hull is the diagonal, so the
+#            `roc_result.y == roc_result.x` branch of p_ignore and p_ignore = 1 for the others are exercised
+#   ties   : one group with a SINGLE distinct score, the others with heavy ties (many rows on <= 2 levels)
+#   unbal  : very unbalanced sizes: a 2-row group (one row per label) next to a large group, and groups with
+#            exactly one row of one label against many of the other
+#   tinygrid: grid_size 1 and 2 on medium random tables
+# --------------------------------------------------------------------------------------------
+SIMPLE6 = ["demographic_parity", "selection_rate_parity", "false_positive_rate_parity", "false_negative_rate_parity",
+           "true_positive_rate_parity", "true_negative_rate_parity"]
+
+
+def _cfg(r, eo_num, eo_den, flip, grids):
+    c = "equalized_odds" if r.chance(eo_num, eo_den) else r.choice(SIMPLE6)
+    o = r.choice(EO_OBJ if c == "equalized_odds" else SIMPLE_OBJ)
+    return (c, o, flip, r.choice(grids))
+
+
+def _informative(r, g, npos, nneg, nl, anti=False):
+    rows = []
+    for l, cnt in ((1, npos), (0, nneg)):
+        for _ in range(cnt):
+            hi = (l == 1) != anti
+            rows.append([g, l, r.randint(nl // 2, nl - 1) if hi else r.randint(0, (nl - 1) // 2)])
+    return rows
+
+
+def structured(tier, seed):
+    out = []
+    n = {"quick": 45, "thorough": 250}[tier]
+    for i in range(n):
+        # ---- (a) anti-correlated group, flip = False ----
+        r = Rng(seed, "C04C05", "anti", i)
+        ng = r.randint(2, 4)
+        anti = r.randint(0, ng - 1)
+        rows = []
+        for g in range(ng):
+            npos, nneg, nl = r.randint(1, 4), r.randint(1, 4), r.randint(2, 6)
+            if g == anti and r.chance(1, 2):
+                # strictly the wrong way round: every positive row scores below every negative row
+                rows += [[g, 1, r.randint(0, nl - 1)] for _ in range(npos)]
+                rows += [[g, 0, r.randint(nl, 2 * nl - 1)] for _ in range(nneg)]
+            else:
+                rows += _informative(r, g, npos, nneg, nl, anti=(g == anti))
+        r.shuffle(rows)
+        out.append(_mk(rows, _cfg(r, 3, 4, False, [1, 2, 3, 4, 5, 7, 10, 16]), r.choice(SCALES), r.choice(OFFSETS)))
+        # ---- (b) single distinct score / heavy ties ----
+        r = Rng(seed, "C04C05", "ties", i)
+        ng = r.randint(2, 3)
+        one = r.randint(0, ng - 1)
+        rows = []
+        for g in range(ng):
+            m = r.randint(2, 9)
+            labs = [0, 1] + [r.randint(0, 1) for _ in range(m - 2)]
+            if g == one:
+                lv = r.randint(0, 3)
+                rows += [[g, l, lv] for l in labs]
+            else:
+                lo = r.randint(0, 2)
+                rows += [[g, l, lo + (r.randint(0, 1) if r.chance(1, 4) else (l if r.chance(2, 3) else 1 - l))] for l in labs]
+        r.shuffle(rows)
+        out.append(_mk(rows, _cfg(r, 1, 3, r.chance(1, 2), [1, 2, 3, 4, 5, 10]), r.choice(SCALES), r.choice(OFFSETS)))
+        # ---- (c) very unbalanced sizes ----
+        r = Rng(seed, "C04C05", "unbal", i)
+        rows = [[0, 0, r.randint(0, 4)], [0, 1, r.randint(0, 4)]]           # one row per label
+        big = r.randint(10, 18)
+        kind = r.randint(0, 2)
+        if kind == 0:
+            rows += _informative(r, 1, 1, big, 5)                          # 1 positive against many negatives
+        elif kind == 1:
+            rows += _informative(r, 1, big, 1, 5, anti=r.chance(1, 3))     # many positives against 1 negative
+        else:
+            rows += _informative(r, 1, big // 2, big - big // 2, 5)
+        if r.chance(1, 3):
+            rows += _informative(r, 2, r.randint(1, 3), r.randint(1, 3), 4)
+        r.shuffle(rows)
+        out.append(_mk(rows, _cfg(r, 1, 3, r.chance(1, 2), [1, 2, 3, 5, 10, 20]), r.choice(SCALES), r.choice(OFFSETS)))
+        # ---- (d) grid_size 1 and 2 ----
+        r = Rng(seed, "C04C05", "tinygrid", i)
+        ng = r.randint(2, 4)
+        rows = []
+        for g in range(ng):
+            rows += _informative(r, g, r.randint(1, 4), r.randint(1, 4), r.randint(2, 5), anti=r.chance(1, 4))
+        r.shuffle(rows)
+        out.append(_mk(rows, _cfg(r, 1, 3, r.chance(1, 2), [1, 2]), r.choice(SCALES), r.choice(OFFSETS)))
     return out
 
 
@@ -383,13 +473,60 @@ def compare_c05(pid, case, out, model):
     return v
 
 
+def shape_tags(case):
+    """input-shape histogram: anti-correlated groups, single-score / heavily tied groups, unbalanced sizes"""
+    rows = case["rows"]
+    eo = case["constraint"] == "equalized_odds"
+    anti = strict = single = heavy = one_many = False
+    sizes = []
+    for g in sorted({r[0] for r in rows}):
+        pos = [r[2] for r in rows if r[0] == g and r[1] == 1]
+        neg = [r[2] for r in rows if r[0] == g and r[1] == 0]
+        sizes.append(len(pos) + len(neg))
+        u = sum((p > q) - (p < q) for p in pos for q in neg)       # 2*AUC - 1, unnormalised
+        anti = anti or u < 0
+        strict = strict or max(pos) < min(neg)
+        lv = set(pos + neg)
+        single = single or len(lv) == 1
+        heavy = heavy or (len(lv) == 2 and sizes[-1] >= 5)
+        one_many = one_many or (min(len(pos), len(neg)) == 1 and max(len(pos), len(neg)) >= 5)
+    t = []
+    if anti:
+        t.append("shape:anti-correlated-group")
+        if not case["flip"]:
+            t.append("shape:anti-correlated-group,flip=False," + ("equalized_odds" if eo else "simple"))
+    if strict and not case["flip"] and eo:
+        t.append("shape:strictly-anti-correlated-group,flip=False,equalized_odds")
+    if single:
+        t.append("shape:single-distinct-score-group")
+    if heavy:
+        t.append("shape:heavy-ties-group(>=5 rows on 2 levels)")
+    if max(sizes) >= 5 * min(sizes):
+        t.append("shape:group-sizes-ratio>=5")
+    if min(sizes) == 2 and max(sizes) >= 10:
+        t.append("shape:2-row-group-vs->=10-row-group")
+    if one_many:
+        t.append("shape:1-vs->=5-rows-per-label")
+    if case["grid"] <= 2:
+        t.append(f"shape:grid_size={case['grid']}")
+    return t
+
+
 def tags(case, out, model):
     t = [f"constraint:{case['constraint']}", f"objective:{case['objective']}", f"flip:{case['flip']}",
          f"grid:{case['grid'] if case['grid'] <= 10 else ('11-100' if case['grid'] <= 100 else '101-1000')}",
          f"groups:{len({r[0] for r in case['rows']})}"]
+    t += shape_tags(case)
     if model is not None:
         t.append("tie" if model["tie"] else "tie-free")
         t.append("interior-x" if 0 < model["i_best"] < case["grid"] else "endpoint-x")
+        if case["constraint"] == "equalized_odds":
+            if any(g["y"] == model["x_best"] for g in model["groups"]):
+                t.append("eo:p_ignore-diagonal-branch(y==x)")
+            if any((g["rule"]["p_ignore"] or 0) > 0 for g in model["groups"]):
+                t.append("eo:p_ignore>0")
+            if any((g["rule"]["p_ignore"] or 0) == 1 for g in model["groups"]):
+                t.append("eo:p_ignore=1")
     return t
 
 
